@@ -180,6 +180,28 @@ def _tree(rnd, d, depth, normalized=False, for_generate=False):
     return leaf(rnd, d)
 
 
+def _same(a, b):
+    if a is None or b is None:
+        return a is None and b is None
+    return np.shape(a) == np.shape(b) and np.array_equal(np.asarray(a, dtype=float), np.asarray(b, dtype=float))
+
+
+def intact_problems(node, path="root"):
+    """Composing distributions must not change the parts: every leaf (and every composite block wrapper) still has the bounds it was
+    constructed with. Reference = the values recorded at construction, not what the object says now."""
+    out = []
+    if not node.children or node.kind == "composite":
+        lo = getattr(node.obj, "lower_bounds", None)
+        hi = getattr(node.obj, "upper_bounds", None)
+        if not _same(lo, node.lb):
+            out.append(f"{path} ({node.kind}): lower bounds are now {None if lo is None else np.ravel(lo).tolist()}, constructed with {None if node.lb is None else np.ravel(node.lb).tolist()}")
+        if not _same(hi, node.ub):
+            out.append(f"{path} ({node.kind}): upper bounds are now {None if hi is None else np.ravel(hi).tolist()}, constructed with {None if node.ub is None else np.ravel(node.ub).tolist()}")
+    for i, c in enumerate(node.children):
+        out += intact_problems(c, f"{path}.{i}")
+    return out
+
+
 HISTORY_P = 0.3
 
 
